@@ -241,11 +241,27 @@ theorem saveExtOp_frame {w : World} {v : Volatile} (h : Good w.D v) :
   · exact hfin _ (attempt_docs_cases w .metaPut _)
   · exact hfin _ (attempt_docs_cases w .metaPut _)
 
+theorem compactOp_frame (w : World) (v : Volatile) (ix : Nat) (c d : Bool) :
+    FlushFrame w.D (compactOp w v ix c d).1.D := by
+  unfold compactOp
+  split
+  · exact ⟨rfl, Nat.le_refl _, rfl⟩
+  split
+  · exact ⟨rfl, Nat.le_refl _, rfl⟩
+  dsimp only
+  split
+  · simp only [reject_D]; exact ⟨rfl, Nat.le_refl _, rfl⟩
+  · have hfin : ∀ D', (D' = w.D ∨ D' = commitIdx ix v.idx w.D) → FlushFrame w.D D' := by
+      rintro D' (h | h) <;> subst h <;> exact ⟨rfl, Nat.le_refl _, rfl⟩
+    split
+    · exact hfin _ (attempt_docs_cases ({ w with preFail := false } : World) (.ixc ix) _)
+    · exact hfin _ (attempt_docs_cases ({ w with preFail := false } : World) (.ixc ix) _)
+
 theorem reopenOp_frame {w : World} (now : Nat) (hD : DurInv w.D) : FlushFrame w.D (reopenOp w now).1.D := by
   unfold reopenOp
   dsimp only
-  obtain ⟨_, g2, _⟩ := flushInner_good (w := { w with off := false, metaStale := false, preFail := false }) now hD (recoverV_good hD).sync
-  cases hf : (flushInner { w with off := false, metaStale := false, preFail := false } (recoverV w.D) now).2.2 <;> simp only [hf] <;> exact g2
+  obtain ⟨_, g2, _⟩ := flushInner_good (w := { w with off := false, metaStale := false, preFail := false, ixStale := [] }) now hD (recoverV_good hD).sync
+  cases hf : (flushInner { w with off := false, metaStale := false, preFail := false, ixStale := [] } (recoverV w.D) now).2.2 <;> simp only [hf] <;> exact g2
 
 /-- every step leaves each document object as it was, or writes exactly the operation's effect -/
 theorem step_docs {s : State} (op : Op) (h : Inv s) (j : Nat) :
@@ -291,6 +307,11 @@ theorem step_docs {s : State} (op : Op) (h : Inv s) (j : Nat) :
     cases hh : s.h with
     | none => exact Or.inl rfl
     | some v => exact Or.inl (by rw [(saveExtOp_frame ⟨h.1, fun hd => h.2 v hh hd⟩).docs])
+  | compact ix c d =>
+    simp only [step, lift]
+    cases hh : s.h with
+    | none => exact Or.inl rfl
+    | some v => exact Or.inl (by rw [(compactOp_frame s.w v ix c d).docs])
   | reopen now => exact Or.inl (by simp only [step]; rw [(reopenOp_frame now h.1).docs])
   | arm l => exact Or.inl rfl
 
@@ -326,6 +347,11 @@ theorem step_metaMax_mono {s : State} (op : Op) (h : Inv s) : s.w.D.metaMax ≤ 
     cases hh : s.h with
     | none => exact Nat.le_refl _
     | some v => exact (saveExtOp_frame ⟨h.1, fun hd => h.2 v hh hd⟩).metaMax
+  | compact ix c d =>
+    simp only [step, lift]
+    cases hh : s.h with
+    | none => exact Nat.le_refl _
+    | some v => exact (compactOp_frame s.w v ix c d).metaMax
   | reopen now => simp only [step]; exact (reopenOp_frame now h.1).metaMax
   | arm l => exact Nat.le_refl _
 
@@ -386,9 +412,15 @@ theorem flushStep_ok_off (now : Nat) (pm pi pu : Bool) (c : FlushCtx) (s : Flush
   | indexes =>
     simp only at h ⊢
     split
-    · split
-      · rename_i hok; exact attemptAll_ok_off _ hok
-      · rename_i h1 hno; simp [h1, hno] at h
+    · rename_i h1
+      simp only [h1, if_true] at h
+      split
+      · rename_i hok
+        rw [if_pos hok] at h
+        split
+        · exact attemptAll_ok_off _ hok
+        · rename_i hlen; rw [if_neg hlen] at h; simp at h
+      · rename_i hno; rw [if_neg hno] at h; simp at h
     · rfl
   | metaPut =>
     simp only at h ⊢
@@ -513,7 +545,7 @@ theorem repair_fold_settled (D : Durable) (l : List Nat) : ∀ s : Volatile × N
 /-- on a settled state without retained intents the reopen path finds nothing to do and writes
 nothing — whatever faults are scheduled -/
 theorem reopen_fixpoint {w : World} (hS : Settled w.D) (hI : w.D.intents = []) (now : Nat) :
-    (reopenOp w now).1 = { w with off := false, metaStale := false, preFail := false } ∧ (reopenOp w now).2.2 = .ok ∧
+    (reopenOp w now).1 = { w with off := false, metaStale := false, preFail := false, ixStale := [] } ∧ (reopenOp w now).2.2 = .ok ∧
       (reopenOp w now).2.1 = some (recoverV w.D) := by
   have hrep : replay w.D (loadV w.D) = loadV w.D := by simp [replay, hI]
   have hscan := repair_fold_settled w.D
@@ -535,8 +567,8 @@ theorem reopen_fixpoint {w : World} (hS : Settled w.D) (hI : w.D.intents = []) (
     · simp only [Nat.lt_irrefl, if_false, c5]; rfl
     · simp only [Nat.lt_irrefl, if_false, c8]; rfl
   obtain ⟨h1, h2, h3, h4⟩ := hver
-  have hfast : flushInner { w with off := false, metaStale := false, preFail := false } (recoverV w.D) now =
-      ({ w with off := false, metaStale := false, preFail := false }, recoverV w.D, some false) := by
+  have hfast : flushInner { w with off := false, metaStale := false, preFail := false, ixStale := [] } (recoverV w.D) now =
+      ({ w with off := false, metaStale := false, preFail := false, ixStale := [] }, recoverV w.D, some false) := by
     unfold flushInner
     simp [h1, h2, h3, h4]
   unfold reopenOp
@@ -579,11 +611,11 @@ theorem reopen_quiet {s : State} (hinv : Inv s) (hsched : s.w.sched = []) (now :
     (step s (.reopen now)).2 = .ok ∧ Quiet (step s (.reopen now)).1.w ∧
       ∃ V, (step s (.reopen now)).1.h = some V ∧ V.dead = false := by
   simp only [step, reopenOp]
-  have hq : Quiet ({ s.w with off := false, metaStale := false, preFail := false } : World) := ⟨rfl, hsched, rfl⟩
+  have hq : Quiet ({ s.w with off := false, metaStale := false, preFail := false, ixStale := [] } : World) := ⟨rfl, hsched, rfl, rfl⟩
   obtain ⟨a, b⟩ := flushInner_quiet (recoverV s.w.D) now hq
   have hr := recoverV_good hinv.1
-  obtain ⟨_, _, g3⟩ := flushInner_good (w := { s.w with off := false, metaStale := false, preFail := false }) now hinv.1 hr.sync
-  cases hf : (flushInner { s.w with off := false, metaStale := false, preFail := false } (recoverV s.w.D) now).2.2 with
+  obtain ⟨_, _, g3⟩ := flushInner_good (w := { s.w with off := false, metaStale := false, preFail := false, ixStale := [] }) now hinv.1 hr.sync
+  cases hf : (flushInner { s.w with off := false, metaStale := false, preFail := false, ixStale := [] } (recoverV s.w.D) now).2.2 with
   | none => simp [hf] at a
   | some x =>
     have ok := g3 (by simp [hf])
@@ -650,12 +682,12 @@ theorem reopen_ok_spec {s : State} (hinv : Inv s) (now : Nat) (hok : (step s (.r
       Settled (step s (.reopen now)).1.w.D ∧ (step s (.reopen now)).1.w.D.intents = [] := by
   simp only [step, reopenOp] at hok ⊢
   have hr := recoverV_good hinv.1
-  obtain ⟨_, g2, g3⟩ := flushInner_good (w := { s.w with off := false, metaStale := false, preFail := false }) now hinv.1 hr.sync
-  cases hf : (flushInner { s.w with off := false, metaStale := false, preFail := false } (recoverV s.w.D) now).2.2 with
+  obtain ⟨_, g2, g3⟩ := flushInner_good (w := { s.w with off := false, metaStale := false, preFail := false, ixStale := [] }) now hinv.1 hr.sync
+  cases hf : (flushInner { s.w with off := false, metaStale := false, preFail := false, ixStale := [] } (recoverV s.w.D) now).2.2 with
   | none => simp [hf] at hok
   | some b =>
     have ok := g3 (by simp [hf])
-    have hoff := flushInner_ok_off (w := { s.w with off := false, metaStale := false, preFail := false }) (recoverV s.w.D) now (by simp [hf])
+    have hoff := flushInner_ok_off (w := { s.w with off := false, metaStale := false, preFail := false, ixStale := [] }) (recoverV s.w.D) now (by simp [hf])
     have ha := hr.alive
     simp only [Volatile.dead, Bool.or_eq_false_iff] at ha
     simp only [hf]
@@ -673,12 +705,12 @@ theorem reopen_get {s : State} (hinv : Inv s) (now : Nat) (hok : (step s (.reope
       | none => .errNotFound := by
   simp only [step, reopenOp] at hok ⊢
   have hr := recoverV_good hinv.1
-  obtain ⟨_, g2, g3⟩ := flushInner_good (w := { s.w with off := false, metaStale := false, preFail := false }) now hinv.1 hr.sync
-  cases hf : (flushInner { s.w with off := false, metaStale := false, preFail := false } (recoverV s.w.D) now).2.2 with
+  obtain ⟨_, g2, g3⟩ := flushInner_good (w := { s.w with off := false, metaStale := false, preFail := false, ixStale := [] }) now hinv.1 hr.sync
+  cases hf : (flushInner { s.w with off := false, metaStale := false, preFail := false, ixStale := [] } (recoverV s.w.D) now).2.2 with
   | none => simp [hf] at hok
   | some x =>
     have ok := g3 (by simp [hf])
-    have hoff := flushInner_ok_off (w := { s.w with off := false, metaStale := false, preFail := false }) (recoverV s.w.D) now (by simp [hf])
+    have hoff := flushInner_ok_off (w := { s.w with off := false, metaStale := false, preFail := false, ixStale := [] }) (recoverV s.w.D) now (by simp [hf])
     simp only [hf, State.get]
     rw [get_of_sync ok.sync hoff, g2.docs]
 
